@@ -112,3 +112,10 @@ TEXT["C08"] = {
     "note": "trusts libsimplicity's anti-DoS checks (CHECK_ALL) as the consensus rule",
     "technique": "behavioural monitor around prune with the C evaluator's anti-DoS check as oracle",
 }
+TEXT["C14"] = {
+    "level": ("Exhaustive over the finite jet tables and the finite set of extern declarations; each jet is additionally executed through both the Rust binding and the C evaluator on sampled inputs; "
+              "the FFI boundary is observed with gdb at the first real call of every declared function. Decides table/code/type/cost agreement completely, binding wiring on the sampled inputs."),
+    "design_ref": "DESIGN.md section 5, C14",
+    "note": "trusts libsimplicity's tables and the DWARF of the C objects built by simplicity-sys's build script with CFLAGS=-g",
+    "technique": "exhaustive table monitors + differential jet execution + gdb FFI-boundary tracer",
+}
